@@ -661,7 +661,7 @@ def approximate_capacity(accessor, tolerance_level=-10, repeats=1, maximum_itera
 
                 is_finished = False
                 if relative_error < 10 ** tolerance_level and \
-                        (repeats > 1 or max(abs(eigenvector - last_eigenvector)) < 10 ** tolerance_level):
+                        max(abs(eigenvector - last_eigenvector)) < 10 ** tolerance_level:
                     results.append(log2(eigenvalue) if eigenvalue > 10 ** tolerance_level else 0.0)
                     is_finished = True
 
